@@ -35,17 +35,24 @@ MOLS = [
     "NC{[>][<]CC[>][<]}|gauss(40,0)|F", "CC(=O)NC", "ClC{[>][<]CC[>][<]}|gauss(30,0)|Cl", "c1ccccc1", "CC(C)(C(=O)OC)", "C1CCOC1",
     "CCC(C){[>][<]CC([>])C(=O)OC[<]}|gauss(180,0)|[H]", "O=C=O", "CC(C)O",
 ]
+# rarer chemistry (every molecule the bundled rules can type is held to the same oracle; the others must raise the dedicated error)
+MOLS_RARE = [
+    "Cn1ccnc1", "C{[>][<]CC([>])n1ccnc1[<]}|gauss(120,0)|[H]", "CC(=O)[O-].[Na+]", "[Li+].[Cl-]", "[K+].[Br-]", "c1ccncc1", "c1ccsc1", "c1ccoc1",
+    "CC(=O)O", "CS(C)=O", "CS(=O)(=O)C", "CC#N", "NC(N)=O", "CC(C)=O", "CC=O", "c1ccc(O)cc1", "c1ccc(N)cc1", "Cc1ccccc1", "ClC(Cl)Cl", "CSC", "CSSC",
+    "C1CO1", "C=CC=C", "CC(=O)OC(C)=O", "NCC(=O)O", "CN(C)C=O", "c1ccc2ccccc2c1", "OC(=O)c1ccccc1", "CCOC(=O)C", "C[Si](C)(C)C", "CCI", "[NH4+]", "CO",
+    "CC(=O)Cl", "C[N+](C)(C)C", "OP(O)(O)=O",
+]
 UNTYPABLE = ["C#N", "FC(F)F"]
 PARTIAL = ["N{[>][<]CC[>][<]}|gauss(30,0)|", "CC[$]", "{[][$]CC[$]; [$]C[$]}|gauss(30,0)|"]
 
 
 def enumerate_cases(tier, seed):
-    mols = MOLS if tier == "thorough" else MOLS[:14]
+    mols = (MOLS if tier == "thorough" else MOLS[:14]) + MOLS_RARE
     for m in mols:
         yield ("renumber", {"mol": m, "tier": tier})
     yield ("errors", {})
     depth = 4 if tier == "thorough" else 3
-    acts = ["D", "A", "B", "As", "An", "Xd", "Xa"]
+    acts = ["D", "A", "B", "As", "An", "Xd", "Xa", "Rn", "Rb"]
     for first in acts:
         yield ("history", {"first": first, "depth": depth})
 
@@ -122,6 +129,16 @@ def eval_case(kind, data):
         res["states"] += 1
         try:
             ff, mol = mg.forcefield_types
+        except fh.FfAssignmentError as e:
+            # chemistry the bundled rules do not cover: the dedicated error with its payload is the required answer
+            part = getattr(e, "incomplete_ff_dict", None)
+            if not isinstance(part, dict) or getattr(e, "mol", None) is None:
+                viol(res, "C20|error-without-payload", f"{text}: assignment error carries partial={type(part).__name__} mol={getattr(e, 'mol', None)}", {"mol": text})
+            res["traces"] += 1
+            res["evals"] = 1
+            res["nontrivial"] = [text, "untypable"]
+            res["sample"] = {"molecule": text, "untypable": True}
+            return res
         except Exception as e:  # noqa
             viol(res, f"C20|typing-raises|{type(e).__name__}", f"{text}: typing raises {type(e).__name__}: {str(e)[:80]}", {"mol": text})
             return res
@@ -214,7 +231,20 @@ def eval_case(kind, data):
             shutil.copy(srcs["s"], paths[tag][0])
             shutil.copy(srcs["n"], paths[tag][1])
         # Xd / Xa: typing a molecule the rules cannot type (must raise the dedicated error and leave no trace)
-        ACT = {"D": (None, None), "A": paths["A"], "B": paths["B"], "As": (paths["A"][0], None), "An": (None, paths["A"][1]), "Xd": (None, None), "Xa": paths["A"]}
+        # refit files: same rules / types, but every charge scaled - typing with them legitimately differs, later default calls must not
+        refit = (os.path.join(tmp, "refit_rules.par"), os.path.join(tmp, "refit_nb.itp"))
+        shutil.copy(srcs["s"], refit[0])
+        with open(srcs["n"]) as fin, open(refit[1], "w") as fout:
+            for line in fin:
+                parts = line.split()
+                if len(parts) >= 8 and parts[0].startswith("opls_"):
+                    try:
+                        parts[4] = f"{float(parts[4]) * 1.25 + 0.01:.4f}"
+                        line = " " + "   ".join(parts) + "\n"
+                    except ValueError:
+                        pass
+                fout.write(line)
+        ACT = {"D": (None, None), "A": paths["A"], "B": paths["B"], "As": (paths["A"][0], None), "An": (None, paths["A"][1]), "Xd": (None, None), "Xa": paths["A"], "Rn": (None, refit[1]), "Rb": refit}
         untypable = [generate(t) for t in UNTYPABLE]
         probes = ["CC(=O)OC", "C{[>][<]CC([>])c1ccccc1[<]}|gauss(150,0)|[H]", "[NH3+]C"]
         mgs = [generate(p) for p in probes]
@@ -262,6 +292,10 @@ def eval_case(kind, data):
                     viol(res, f"C20|history-typing-raises|{type(e).__name__}|after={'none' if step == 0 else 'calls'}|call={a}", f"typing with {a} after {list(seq[:step])} raises {type(e).__name__}: {str(e)[:60]}", {"seq": list(seq), "step": step})
                     break
                 states.add((str(fh._global_smarts_rule_file).replace(tmp, ""), str(fh._global_nonbonded_itp_file).replace(tmp, "")))
+                if a in ("Rn", "Rb"):
+                    # different parameter values on purpose: only totality and element masses are required here
+                    check_total(res, probes[(step + nseq) % len(mgs)], ff, mol, "refit-files")
+                    continue
                 if assignment(ff, mol) != exp:
                     viol(res, f"C20|history-dependent|call={a}", f"typing with {a} after {list(seq[:step])} gives a different assignment than the defaults in a fresh process", {"seq": list(seq), "step": step})
                     break
